@@ -47,6 +47,11 @@ func hasMarker(s string) bool {
 
 func asciiLower(s string) string { return strings.ToLower(s) }
 
+// hasMarkerName: the tokenizer lower-cases tag and attribute names, so a marker inside a name reads zq<digits>x.
+func hasMarkerName(s string) bool {
+	return hasMarker(s) || hasMarker(strings.ReplaceAll(s, "zq", "zQ"))
+}
+
 func relTokens(attrs []htmltok.Attr) []string {
 	for _, a := range attrs {
 		if a.Name == "rel" && !a.Dropped {
@@ -129,11 +134,11 @@ func locate(out string) string {
 					return fmt.Sprintf("untrusted marker inside an HTML comment: %q", t.Data)
 				}
 			case htmltok.StartTag, htmltok.EndTag:
-				if hasMarker(t.Name) {
+				if hasMarkerName(t.Name) {
 					return fmt.Sprintf("untrusted marker inside a tag name: %q", t.Name)
 				}
 				for _, a := range t.Attrs {
-					if hasMarker(a.Name) {
+					if hasMarkerName(a.Name) {
 						return fmt.Sprintf("untrusted marker inside an attribute name %q of <%s>", a.Name, t.Name)
 					}
 					if !hasMarker(a.Value) {
@@ -172,7 +177,7 @@ func locate(out string) string {
 			}
 		}
 		f := r.Final
-		if f.InTag != "" && hasMarker(f.InTag) || f.InAttr != "" && hasMarker(f.InAttr) {
+		if f.InTag != "" && hasMarkerName(f.InTag) || f.InAttr != "" && hasMarkerName(f.InAttr) {
 			return fmt.Sprintf("untrusted marker inside an unfinished tag or attribute name (final state %+v)", f)
 		}
 	}
@@ -212,6 +217,10 @@ func untrusted(t *rapid.T, i int) string {
 func genLoc(t *rapid.T) LocCase {
 	o := tmpl.Options{MaxDepth: 2, MaxItems: 3, Helpers: false, URLBias: true, CommentsOK: true, Weird: true}
 	p := tmpl.Generate(t, o)
+	if rapid.IntRange(0, 2).Draw(t, "splice") == 0 {
+		// template nodes spliced in at arbitrary positions of the static text (by preference inside tags)
+		tmpl.Splice(t, p, 2)
+	}
 	d := tmpl.Bind(t, p)
 	for i := range d.V {
 		// untrusted marker strings in every position, typed-only ones included (those must fail);
@@ -270,6 +279,7 @@ type CodeCase struct {
 	Wrap    string    `json:"wrap"`    // how the action is produced: plain, if, range, with, helper, print
 	Payload evid.BStr `json:"payload"` // untrusted string (marker at both ends is added)
 	Typed   string    `json:"typed"`   // "" = untrusted string; else a safe type carrying trusted contents (control case)
+	JS      bool      `json:"js,omitempty"` // the untrusted string is javascript:alert(1) + payload (no marker): no URL attribute of the output may have the javascript scheme
 }
 
 var codeShapes = []string{
@@ -296,20 +306,63 @@ var codeShapes = []string{
 	`<link rel="stylesheet {{if .C}}{{end}}icon" href="@@">`, `<link rel="style{{if .C}}{{end}}sheet" href="@@">`, `<link rel="{{if .C}}stylesheet{{end}} icon" href="@@">`, `<link rel="icon {{if .C}}stylesheet{{else}}x{{end}}" href="@@">`, `<link rel="icon{{/* c */}} stylesheet" href="@@">`,
 	`{{if .C}}<script{{else}}<br{{end}}>@@</script>`, `{{if .C}}<object{{else}}<br{{end}}>@@`, `{{if .C}}<style{{else}}<hr{{end}}>@@</style>`, `{{if .F}}<br{{else}}<script{{end}}>@@</script>`, `{{if .C}}<script{{else}}<div{{end}}>@@`,
 	`<s{{if .C}}cript{{end}}>@@</script>`, `<scr{{/* c */}}ipt>@@</script>`, `<scr{{if .C}}{{end}}ipt>@@</script>`, `<a hr{{if .C}}ef{{end}}="@@">`, `<div on{{if .C}}click{{end}}="@@">`,
+	// a special element's end tag written inside its own start tag (a browser reads attribute names there)
+	`<script </script>@@</script>`, `<script type="module"</script>@@</script>`, `<style </style>@@</style>`, `<script x=1 </script >@@</script>`, `<SCRIPT </SCRIPT>@@</SCRIPT>`,
+	// branches that open different elements one of which is a special element, followed by markup
+	`{{if .C}}<script{{else}}<div{{end}}>var b=2;1<b>@@//</b></script>`, `{{if .C}}<script>{{else}}<title>{{end}}x</title>@@</script>`, `{{if .C}}<script{{else}}<div{{end}}>/*<b>*/@@/*</b></div>*/</script>`,
+	`{{if .C}}<style{{else}}<div{{end}}>a<b>@@</b></style>`, `{{if .C}}<style>{{else}}<textarea>{{end}}x</textarea>@@</style>`, `{{if .F}}<div{{else}}<script{{end}}>1<b>@@</b></script>`, `{{if .C}}<script>{{else}}<style>{{end}}/*</style>*/@@</script>`,
+	// the rel attribute of a link element behind a conditional attribute name, or hidden by '/' as separator
+	`<link {{if .C}}title{{else}}rel{{end}}="icon" rel="stylesheet" href="@@">`, `<link {{if .C}}rel{{else}}title{{end}}="stylesheet" rel="icon" href="@@">`, `<link {{if .F}}title{{else}}rel{{end}}="stylesheet" rel="icon" href="@@">`,
+	`<link/rel=stylesheet rel="icon" href="@@">`, `<link x/rel="stylesheet" rel="icon" href="@@">`, `<link/rel="stylesheet"/rel="icon"/href="@@">`, `<a/href="@@">`, `<a x/onclick="@@">`, `<div/style="@@">`,
+	// the same helper at two sites that differ in the alternative element names only
+	`<img src="@@">{{if .C}}<script{{else}}<img{{end}} src="@@"></script>`, `{{if .C}}<script{{else}}<img{{end}} src="@@"></script><img src="@@">`,
+	// names completed, or separated, by a template node
+	`<a data-x{{if .C}} {{end}}onclick="@@">`, `<a title{{if .C}} {{end}}href="@@">`, `<a title{{range .L}} {{end}}href="@@">`, `<a title{{if .C}}{{end}}/href="@@">`, `<a data-x{{if .C}}{{end}}/onclick="@@">`, `<link r{{if .C}}{{end}}el="stylesheet" rel="icon" href="@@">`, `<link re{{if .C}}l{{end}}="stylesheet" rel="icon" href="@@">`,
+	`<a {{if .C}}title {{end}}href="@@">`, `<a title={{if .F}}x{{end}} alt="@@">`, `<b{{if .F}} {{end}}title="@@">`,
 	`<textarea>@@</textarea>`, `<title>@@</title>`, `<p>@@</p>`, `<noscript>@@</noscript>`, `<iframe>@@</iframe>`, `<xmp>@@</xmp>`, `<plaintext>@@`,
 }
 
 func genCode(t *rapid.T) CodeCase {
-	c := CodeCase{Shape: rapid.SampledFrom(codeShapes).Draw(t, "shape"), Wrap: rapid.SampledFrom([]string{"plain", "plain", "if", "range", "with", "helper", "print", "var", "else"}).Draw(t, "wrap")}
+	c := CodeCase{Shape: rapid.SampledFrom(codeShapes).Draw(t, "shape"), Wrap: rapid.SampledFrom([]string{"plain", "plain", "if", "range", "with", "helper", "print", "var", "else", "rec", "recbal"}).Draw(t, "wrap")}
 	c.Payload = evid.BStr(rapid.SampledFrom(payloads).Draw(t, "p1") + rapid.SampledFrom(payloads).Draw(t, "p2"))
 	if rapid.IntRange(0, 5).Draw(t, "typed") == 0 {
 		c.Typed = rapid.SampledFrom(tx.TypeNames).Draw(t, "type")
+	} else if rapid.IntRange(0, 4).Draw(t, "js") == 0 {
+		c.JS = true
 	}
 	return c
 }
 
+// jsAnywhere: some URL-valued attribute of the output has the javascript scheme.
+func jsAnywhere(out string) string {
+	r := htmltok.Tokenize([]byte(out), htmltok.Options{})
+	for _, t := range r.Tokens {
+		if t.Kind != htmltok.StartTag {
+			continue
+		}
+		for _, a := range t.Attrs {
+			if a.Dropped {
+				continue
+			}
+			// the URL-valued attributes the property lists (an image URL such as poster is not among them)
+			switch a.Name {
+			case "href", "src", "action", "formaction", "srcset", "imagesrcset":
+			default:
+				continue
+			}
+			if msg := jsURL(t.Name, a); msg != "" {
+				return msg
+			}
+		}
+	}
+	return ""
+}
+
 func (c CodeCase) render() (string, map[string]interface{}) {
 	var v interface{} = marker(0) + string(c.Payload) + marker(0)
+	if c.JS {
+		v = "javascript:alert(1)" + string(c.Payload)
+	}
 	if c.Typed != "" {
 		v = tx.Typed(c.Typed, "https://h/trusted/"+string(c.Payload))
 	}
@@ -336,6 +389,22 @@ func (c CodeCase) render() (string, map[string]interface{}) {
 	if c.Typed != "" && c.Wrap == "print" {
 		act = "{{.V}}"
 	}
+	if c.Wrap == "rec" || c.Wrap == "recbal" {
+		// a helper that calls itself: "recbal" ends in the context it starts in, "rec" also holds the rest of the
+		// template text, so that it ends in another context than the one of its call site
+		inner := map[string]interface{}{}
+		for k, x := range data {
+			inner[k] = x
+		}
+		data["N"] = inner
+		i := strings.Index(c.Shape, "@@")
+		before, after := c.Shape[:i], strings.ReplaceAll(c.Shape[i+2:], "@@", "{{.V}}")
+		body := `{{.V}}{{if .N}}{{template "h" .N}}{{end}}`
+		if c.Wrap == "rec" {
+			return `{{define "h"}}` + body + after + `{{end}}` + before + `{{template "h" .}}`, data
+		}
+		return `{{define "h"}}` + body + `{{end}}` + before + `{{template "h" .}}` + after, data
+	}
 	return pre + strings.ReplaceAll(c.Shape, "@@", act), data
 }
 
@@ -349,15 +418,22 @@ func checkCode(c CodeCase) evid.Outcome {
 		return o
 	}
 	out, err := tx.Exec(t, data)
-	if msg := locate(out); msg != "" {
+	msg := locate(out)
+	if c.JS && msg == "" {
+		msg = jsAnywhere(out)
+	}
+	if msg != "" {
 		v := evid.Viol("%s\ntemplate: %q\ndata V=%q\noutput (err=%v): %q", msg, text, data["V"], err, out)
 		if strings.Contains(c.Shape, "<!--<script") || strings.Contains(c.Shape, "<!--<SCRIPT") {
 			v.Finding = "K-scriptesc"
 		}
 		if strings.Contains(c.Shape, "<s{{") || strings.Contains(c.Shape, "<scr{{") || strings.Contains(c.Shape, " hr{{") || strings.Contains(c.Shape, " on{{") {
-			v.Finding = "K-tagsplit"
+			v.Finding = "F-namesplit-regressed"
 		}
-		if c.Wrap == "helper" && strings.Count(c.Shape, "@@") >= 2 {
+		if c.Wrap == "helper" && strings.Count(c.Shape, "@@") >= 2 && (strings.Contains(c.Shape, `"java@@`) || strings.Contains(c.Shape, `?q=@@`)) {
+			// K-mangle proper: the two call sites differ in the static text in front of the call (which cannot be
+			// part of the derived-template name); sites that differ in the link rel value or in alternative element
+			// / attribute names get copies of their own since F-manglekey
 			// attribution by repair: with the helper calls inlined the violation must be gone
 			in := c
 			in.Wrap = "plain"
@@ -756,7 +832,7 @@ func TestPropScheme(t *testing.T)   { evid.RunProp(t, "scheme", 0.7, genScheme, 
 // TestPropCodeAll: every shape x wrapper x a fixed payload list (deterministic part).
 func TestPropCodeAll(t *testing.T) {
 	shard, n := evid.Shard()
-	wraps := []string{"plain", "if", "else", "range", "with", "helper", "print", "var"}
+	wraps := []string{"plain", "if", "else", "range", "with", "helper", "print", "var", "rec", "recbal"}
 	pls := []string{"", "x", "\" onx=\"", "' onx='", "</script>", "-->", "javascript:alert(1)", "//evil.test/", " ", "\\", ".evil.test/"}
 	var all []CodeCase
 	for _, s := range codeShapes {
